@@ -13,6 +13,12 @@ From Onet Require Export Base.Corr Api.Storage Api.StorageSpec.
 
 Inductive case :=
 | CHist (names : list bytes) (dec : list bytes) (hist : list (hop * res))
+        (changed : list nat)
+  (* [changed]: positions of operations whose RESULT (the raw bytes of LoadRaw,
+     a []byte field of the value decoded by Load, the bucket name returned by
+     GetAdditionalBucket), kept by the harness service, was later found to differ
+     from what it was when handed out -- re-compared after every later operation
+     and restart; a fault while reading it counts as changed *)
   (* concurrent savers: all writes issued concurrently (service, key, marshalled
      value); answers of loads issued while the writers ran and after they all
      finished (service, key, answer) *)
@@ -51,7 +57,10 @@ Definition conc_ok writes during after : bool :=
 
 Definition agree (c : case) : bool :=
   match c with
-  | CHist names dec hist => ress_eqb (houts dec names (map fst hist)) (map snd hist)
+  | CHist names dec hist changed =>
+      (* values are immutable in the model: nothing handed out ever changes *)
+      ress_eqb (houts dec names (map fst hist)) (map snd hist) &&
+      match changed with [] => true | _ => false end
   | CConc names writes during after => conc_ok writes during after
   end.
 
@@ -66,12 +75,17 @@ Definition mismatches (l : list case) : list nat := mism_idx agree l.
    4 an additional bucket of this service does not return what this service put last
    5 crash (nil bucket)
    6 concurrent savers: a load returned a value nobody wrote to that key of that
-     service, or an error, or nothing after a completed write *)
+     service, or an error, or nothing after a completed write
+   7 a value handed to the service (loaded bytes, decoded []byte field, additional
+     bucket name) changed afterwards, or reading it faults *)
 
 Definition check (c : case) : list nat :=
   nodup Nat.eq_dec
     match c with
-    | CHist names dec hist => if names_ok names then pwalk dec names (pinit names) hist else []
+    | CHist names dec hist changed =>
+        (if names_ok names then pwalk dec names (pinit names) hist else []) ++
+        (* clause 7 holds for any names: a value handed to a service is the service's *)
+        clause 7 (match changed with [] => true | _ => false end)
     | CConc names writes during after =>
         if names_ok names then clause 6 (conc_ok writes during after) else []
     end.
